@@ -466,3 +466,62 @@ def r9_callsite(ctx):
 
 RULES = [r1_callee_entry, r2_continuation, r3_sides, r4_subsumption, r5_join_contexts, r6_recursion, r7_project_and_store,
          r8_global_tables, r9_callsite]
+
+
+def r10_joined_reuse(ctx):
+    ctx.rule("C09.r10", "a stored (pre, post) pair is reused for a new entry d only if post was COMPUTED from a precondition that "
+             "includes d: a context obtained by joining two contexts (pre|pre', post|post') describes only gamma(pre) U gamma(pre'), "
+             "not gamma(pre|pre'), so it must not answer is_subsumed(d) with `d <= pre|pre'`", floor=1)
+    fs = ctx.db.fns(TD, pk=CC + "::is_subsumed")
+    if not ctx.need(fs, "calling_context::is_subsumed"):
+        return
+    # constructors that mark a context as joined
+    joined_ctors = [f for f in ctx.db.fns(TD, cpk=CC) if f.get("ctor") and
+                    any(i.get("field") == "m_exact" and isinstance(strip(i.get("e")), dict) and strip(i.get("e")).get("v") == "false" for i in f.get("inits", []))]
+    if not joined_ctors:
+        ctx.undecided("no calling_context constructor initialises m_exact to false: the joined/exact distinction moved", fs[0], fs[0]["body"])
+        return
+    for fn in fs:
+        body = fn["body"]
+        g = paths.guards(body)
+        flagged = None
+        for r in rets(body):
+            gs = [(c, p) for c, p in g.get(id(r), ()) if not isinstance(c, tuple)]
+
+            def val(c):
+                if is_field(c, "m_exact", of_this=True):
+                    return False
+                return None
+
+            def ev(c):
+                c = strip(c)
+                if not isinstance(c, dict):
+                    return None
+                v = val(c)
+                if v is not None:
+                    return v
+                if c.get("k") == "un" and c.get("op") == "!":
+                    x = ev(c.get("e"))
+                    return None if x is None else (not x)
+                if c.get("k") == "bin" and c.get("op") in ("&&", "||"):
+                    a, b = ev(c.get("L")), ev(c.get("R"))
+                    if c["op"] == "&&":
+                        return False if (a is False or b is False) else (True if (a and b) else None)
+                    return True if (a is True or b is True) else (False if (a is False and b is False) else None)
+                if c.get("k") == "lit" and c.get("v") in ("true", "false"):
+                    return c["v"] == "true"
+                return None
+            if any(ev(c) is (not p) for c, p in gs):
+                continue        # not reachable for a joined context
+            if ev(r.get("v")) is False:
+                continue
+            flagged = r
+        if flagged is not None:
+            ctx.bad("calling_context::is_subsumed answers `%s` for a JOINED context (m_exact == false), whose post summary is post | post' "
+                    "and was never computed from pre | pre': a call with an entry inside the join but outside both members reuses a post "
+                    "condition that does not cover it" % src(flagged.get("v"))[:60], fn, flagged, sig="joined-context-reused")
+        else:
+            ctx.ok("joined contexts are never reused as summaries", fn, body)
+
+
+RULES += [r10_joined_reuse]
